@@ -55,6 +55,9 @@ func init() {
 			{ID: "R18s", Floor: 1, Doc: "the extractor takes entry names as they are: no case folding (ToLower/ToUpper/EqualFold) in cmd/car/lib", Run: ruleR18s},
 			{ID: "R18t", Floor: 1, Doc: "car create opens its destination with the version option only: no parser option (ZeroLengthSectionAsEOF, limits) is set for a file the command writes and may resume", Run: ruleR18t},
 			{ID: "R18u", Floor: 1, Doc: "an empty block is a block that was found: wherever a store compares the size store.FindCid reports with a constant, 0 is on the found side (-1 is the only not-found marker)", Run: ruleR18u},
+			{ID: "R18v", Floor: 3, Doc: "car extract reads from a pipe what it reads from a file: no buffer filled by a single Read (= R02q)", Run: ruleR02q},
+			{ID: "R18w", Floor: 1, Doc: "a rerun of car create resumes only complete sections: the completeness probe of Resume reads the payload view (= R06c)", Run: ruleR06c},
+			{ID: "R18x", Floor: 1, Doc: "extraction from stdin keeps each block's own bytes until the walk is over: what NewStdinReadStorage stores per block is the block's RawData() or a fresh copy, not a view into a reused buffer", Run: ruleR18x},
 		},
 	})
 }
